@@ -16,6 +16,8 @@ ASSUMPTIONS = ["the Go scheduler actually runs W runnable goroutines (the lower 
 def corpus():
     return [
         "pool.usable 8 150", "pool.usable 2 200", "pool.usable 16 60",
+        "pool.usable 160 12", "pool.usable 300 8", "pool.usable 129 10",       # pools larger than any round number a wake-up budget might use
+        "run prop=C04 mode=constant rate=200/100ms dur=400 conc=200 body=250 expectfull=1",
         "pool.stress 8 3000 6 2",
         "pool.handles 2 3",
         "run prop=C04 mode=constant rate=20/50ms dur=400 conc=4 body=150 expectfull=1",
@@ -32,6 +34,7 @@ def generate(rng, tier):
     out = []
     for _ in range(n):
         out.append("pool.usable %d %d" % (rng.choice([2, 3, 4, 8, 16, 32]), rng.choice([80, 160])))
+        out.append("pool.usable %d %d" % (rng.choice([65, 100, 130, 257, 520]), rng.choice([6, 10])))
         out.append("pool.stress %d %d %d 2" % (rng.choice([2, 8, 32]), rng.choice([2000, 5000]), rng.choice([2, 8])))
     for _ in range({"quick": 4, "thorough": 40, "search": 8}[tier]):
         mode = rng.choice(["constant", "users", "staged", "ramp", "gaussian"])
